@@ -110,6 +110,7 @@ type parkedTask struct {
 	ctx      context.Context
 	lockWait bool
 	inDriver bool // parked inside a database/sql driver call: ends by itself when its context is cancelled
+	seq      int  // order of parking (lock hand-off is first come, first served)
 	kinds    []FaultKind
 	epoch    int
 }
@@ -118,6 +119,8 @@ type World struct {
 	realSQL        bool   // data methods of storage/ledger run for real over the SQL interpreter (sqlmini)
 	sqlUnsupported string // first statement the interpreter could not handle (the run is then inconclusive)
 	sqlUnsupportedTaint string
+	parkSeq             int
+	victims             map[string]int // op id -> how often one of its statements was the victim of an organic deadlock
 	lenientReads bool        // see unmodelled
 	sites        [][3]string // (task, store call, fault fired or "") for every step at a yield that admits faults
 	mu           sync.Mutex
@@ -187,6 +190,13 @@ func NewWorld() *World {
 	}
 	w.db = NewDB(&w.eventCtr)
 	w.db.chooseVictim = w.chooseVictim
+	w.db.onDeadlockVictim = func(task string) {
+		// called with db.mu held
+		if w.victims == nil {
+			w.victims = map[string]int{}
+		}
+		w.victims[opIDOf(task)]++
+	}
 	w.db.onTaintedCommit = func(reason string) {
 		// called with db.mu held, from the task that commits
 		if w.sqlUnsupportedTaint == "" {
@@ -310,7 +320,8 @@ func (w *World) parkX(ctx context.Context, op, note string, cond func() bool, lo
 	if !lockWait {
 		w.yieldCount[key] = n + 1
 	}
-	p := &parkedTask{key: key, op: op, note: note, n: n, wake: make(chan *Fault, 1), cond: cond, ctx: ctx, lockWait: lockWait, inDriver: inDriver, kinds: kinds, epoch: w.epoch}
+	p := &parkedTask{key: key, op: op, note: note, n: n, wake: make(chan *Fault, 1), cond: cond, ctx: ctx, lockWait: lockWait, inDriver: inDriver, kinds: kinds, epoch: w.epoch, seq: w.parkSeq}
+	w.parkSeq++
 	if old, dup := w.parked[key]; dup {
 		if w.harness == nil {
 			w.harness = fmt.Errorf("duplicate task key %q parked at %s and %s", key, old.op, op)
@@ -416,10 +427,19 @@ func (w *World) Step() bool {
 	if len(rs) == 0 {
 		return false
 	}
-	// default policy: continue the current task, else the lowest key
+	// Lock hand-off: a session that has been waiting for a lock gets it as soon as it is released, before
+	// the releaser (or anybody else) can take it again - PostgreSQL queues waiters first come, first served.
+	// Without this a retried deadlock victim that keeps the baton re-takes its locks before the session it
+	// blocked wakes up, and the pair livelocks for ever.
 	var chosen *parkedTask
 	for _, p := range rs {
-		if p.key == w.current {
+		if p.lockWait && p.cond != nil && p.cond() && (p.ctx == nil || p.ctx.Err() == nil) && (chosen == nil || p.seq < chosen.seq) {
+			chosen = p
+		}
+	}
+	// default policy: continue the current task, else the lowest key
+	for _, p := range rs {
+		if chosen == nil && p.key == w.current {
 			chosen = p
 			break
 		}
